@@ -44,6 +44,11 @@ MixFive == [a |-> Atts(<<A("k1", 0, 1, "A"), A("k2", 0, 1, "A")>>),
             c |-> Att(A("k1", 0, 2, "A")),
             d |-> Prop(P("k3", 1, "A")),
             e |-> Prop(P("k3", 1, "B"))]
+\* an abandoned request between two proposals of its key
+MixAbandon == [a |-> Prop(P("k1", 1, "A")),
+               b |-> Prop(P("k1", 2, "A")),
+               c |-> Prop(P("k1", 2, "B"))]
+CatAbandon(r) == One(MixAbandon, r)
 CatOpposite(r) == One(MixOpposite, r)
 CatSurround(r) == One(MixSurround, r)
 CatCrossing(r) == One(MixCrossing, r)
